@@ -197,9 +197,9 @@ fn source_of(idx: usize, path: &[Id], m: &Module, probe: Option<&Sp>, state: boo
     s
 }
 
-/// sessions over plain trees (no symlinks, no manifest): every module carries mutable pub state
+/// in sessions every module carries mutable pub state
 fn has_state(c: &Case) -> bool {
-    !c.inputs.is_empty() && c.links.is_empty() && c.hints.is_empty()
+    !c.inputs.is_empty()
 }
 
 fn file_on_disk(root: &Path, path: &[Id]) -> PathBuf {
@@ -368,8 +368,8 @@ fn input_source(c: &Case, k: usize, m: &Module, probe: Option<&Sp>) -> String {
     }
     writeln!(s, "println(\"I:in{}\")", k).unwrap();
     if has_state(c) {
-        // advance the counter of every module this input imports under a qualifier (the file is the one the
-        // import names: plain trees only), and print its new value
+        // advance the counter of every module this input imports under a qualifier and by its own path (the names
+        // of symlinks and manifest entries are never paths of files), and print its new value
         for i in &m.imports {
             let q = match &i.form {
                 Form::Module => *i.path.last().unwrap(),
@@ -1351,9 +1351,30 @@ fn session_from(rng: &mut Rng, mut c: Case, n: usize) -> Case {
         inputs.insert(at, bad);
         // ... and afterwards import again (same spelling, and as an alias) what was loaded before it
         let mut again = Module::default();
-        for i in loaded_before.iter().take(2) {
+        for (j, i) in loaded_before.iter().take(2).enumerate() {
             again.imports.push(i.clone());
             again.imports.push(Import { path: i.path.clone(), form: Form::Alias(75) });
+            // ... and under a different spelling of the same file: a symlink to it, an explicit manifest path, `mod.symbol`
+            let target = c.files.iter().find(|(p, m)| *p == i.path && m.fault == 0).map(|(_, m)| m.clone());
+            if let (1, Some(tm)) = (i.path.len(), target) {
+                let al = if j == 0 { 74 } else { 79 };
+                match rng.below(4) {
+                    0 => {
+                        c.links.push((vec![130 + j as Id], i.path.clone()));
+                        again.imports.push(Import { path: vec![130 + j as Id], form: Form::Alias(al) });
+                    }
+                    1 => {
+                        c.hints.push((vec![132 + j as Id], vec![PSeg::Cur, PSeg::Seg(i.path[0])]));
+                        again.imports.push(Import { path: vec![132 + j as Id], form: Form::Alias(al) });
+                    }
+                    2 => {
+                        if let Some(d) = tm.defs.iter().find(|d| d.is_pub) {
+                            again.imports.push(Import { path: vec![i.path[0], d.name], form: Form::Module });
+                        }
+                    }
+                    _ => {}
+                }
+            }
         }
         if kind == 2 && rng.chance(1, 2) {
             again.imports.push(Import { path: vec![121], form: Form::Alias(74) }); // the raising module once more
